@@ -452,7 +452,7 @@ pub struct EnumPart {
     /// true when the enumeration of this tier closes the whole space it describes
     pub exhaustive: fn(Tier) -> bool,
     pub check: fn(u64, &mut Stats) -> Result<(), String>,
-    pub describe: fn(u64) -> Value,
+    pub describe: fn(Tier, u64) -> Value,
     pub required_classes: &'static [&'static str],
 }
 
@@ -492,7 +492,7 @@ impl Part for EnumPart {
                             stop.store(true, Ordering::Relaxed);
                             failure = Some(Failure {
                                 part: pname.to_string(),
-                                case: json!({"index": i, "decoded": describe(i)}),
+                                case: json!({"index": i, "decoded": describe(tier, i)}),
                                 message: m,
                             });
                             break;
@@ -515,9 +515,9 @@ impl Part for EnumPart {
         failures.sort_by_key(|f| f.case["index"].as_u64().unwrap_or(u64::MAX));
         failures.truncate(1);
         if stats.samples.is_empty() && total > 0 {
-            stats.samples.push((self.describe)(0));
-            stats.samples.push((self.describe)(total / 2));
-            stats.samples.push((self.describe)(total - 1));
+            stats.samples.push((self.describe)(env.tier, 0));
+            stats.samples.push((self.describe)(env.tier, total / 2));
+            stats.samples.push((self.describe)(env.tier, total - 1));
         }
         PartReport {
             name: self.name.to_string(),
